@@ -685,14 +685,14 @@ Proof.
     destruct (Hfk1 []) as [H1 _]. rewrite (Hforall [] ev1 (obs_res RPanic) H1). reflexivity.
 Qed.
 
-Theorem oracle_c04_session_model dir chal keypair : forall rs s,
-  oracle_c04_session rs (snd (session dir chal keypair rs s)) = true.
+Theorem oracle_c04_session_model chal keypair : forall rs s,
+  oracle_c04_session rs (snd (session chal keypair rs s)) = true.
 Proof.
   induction rs as [|ri rest IH]; intro s; simpl; [reflexivity|].
   unfold run_once.
-  pose proof (oracle_c04_run_model (run_env dir chal keypair ri) (ri_params ri) (ri_handlers ri) (start_run s)) as Ho.
+  pose proof (oracle_c04_run_model (run_env chal keypair ri) (ri_params ri) (ri_handlers ri) (start_run s)) as Ho.
   destruct (run_body _ _ _ _) as [[s1 ev] r].
   specialize (IH s1). unfold oracle_c04_session in *.
-  destruct (session dir chal keypair rest s1) as [s2 os2].
+  destruct (session chal keypair rest s1) as [s2 os2].
   simpl in *. rewrite Ho, IH. reflexivity.
 Qed.
